@@ -135,10 +135,11 @@ func runC18(c *core.Ctx) {
 		})
 		ok, detail := false, "expected exactly one store to the interceptor list inside a loop over the arguments"
 		if nSt == 1 && core.InLoop(st.Block()) {
-			if u, isU := core.Resolve(st.Val).(*ssa.UnOp); isU {
-				if call, isC := core.Resolve(u.X).(*ssa.Call); isC {
+			call, opName := c18listOp(p, core.Resolve(st.Val))
+			if call != nil {
+				{
 					g := core.Callee(&call.Call)
-					if g != nil && isStreamMethod(g) && g.Name() == s.op && core.FieldKey(call.Call.Args[0]) == "SimpleHTTPDef.interceptors" {
+					if opName == s.op && core.FieldKey(call.Call.Args[0]) == "SimpleHTTPDef.interceptors" {
 						// argument: a one-element slice holding the range element of the parameter, ascending index
 						elemOK := false
 						if len(call.Call.Args) == 2 {
@@ -193,6 +194,55 @@ func runC18(c *core.Ctx) {
 		})
 		c.Check(ok, "R3", "SimpleHTTPDef.ClearInterceptor", p.Pos(f.Pos()), "assigns a new empty stream", "Clear does not assign a new empty stream")
 	}
+}
+
+// c18listOp: v is the value stored into the interceptor list. Returns the call that produced it and the name of the
+// persistent stream operation it stands for: `*list.Op(items...)`, or - one level lower - the library's slice helper that
+// Op itself hands (*receiver, items) to on its non-identity path (`fpgo.Minus(list, items)` for RemoveItem).
+func c18listOp(p *core.Prog, v ssa.Value) (*ssa.Call, string) {
+	if u, isU := v.(*ssa.UnOp); isU && u.Op == token.MUL {
+		if call, isC := core.Resolve(u.X).(*ssa.Call); isC {
+			if g := core.Callee(&call.Call); g != nil && isStreamMethod(g) {
+				return call, g.Name()
+			}
+		}
+		return nil, ""
+	}
+	call, isC := v.(*ssa.Call)
+	if !isC {
+		return nil, ""
+	}
+	h := core.Callee(&call.Call)
+	if h == nil || h.Pkg != p.Fpgo || h.Signature.Recv() != nil || len(call.Call.Args) != 2 {
+		return nil, ""
+	}
+	name := ""
+	for _, m := range p.Methods(p.Fpgo, "StreamDef") {
+		if len(m.Params) != 2 {
+			continue
+		}
+		core.Instrs(m, func(ins ssa.Instruction) {
+			c2, ok := ins.(*ssa.Call)
+			if !ok || core.Callee(&c2.Call) != h || len(c2.Call.Args) != 2 {
+				return
+			}
+			if src := core.DerefSource(core.Resolve(c2.Call.Args[0])); src == nil || core.Resolve(src) != ssa.Value(m.Params[0]) {
+				return
+			}
+			if core.Resolve(c2.Call.Args[1]) != ssa.Value(m.Params[1]) {
+				return
+			}
+			if name == "" {
+				name = m.Name()
+			} else if name != m.Name() {
+				name = "-"
+			}
+		})
+	}
+	if name == "" || name == "-" {
+		return nil, ""
+	}
+	return call, name
 }
 
 // ascendingIndex: idx is the induction variable of a range loop counting up by one (phi of -1/0 and idx+1).
